@@ -3,8 +3,8 @@
 From GV.Model Require Import SEval.
 From GV.Proofs Require Import StatusProps EvalLaws CompareProps NegationProps TableProps.
 From GV.Generated Require Import EvalTables.
-From GV.Model Require Import ValueParse QueryParse OpParse ClauseParse CnfParse FilterParse ClauseFParse.
-From GV.Proofs Require Import ValueSpellProps QuerySpellProps OpParseProps ClauseParseProps ClauseSpellProps CnfParseProps FilterParseProps ClauseFProps.
+From GV.Model Require Import ValueParse QueryParse OpParse ClauseParse CnfParse FilterParse ClauseFParse FullParse.
+From GV.Proofs Require Import ValueSpellProps QuerySpellProps OpParseProps ClauseParseProps ClauseSpellProps CnfParseProps FilterParseProps ClauseFProps FullLinkProps.
 
 (* `not X exists` == `X !exists`, likewise empty and the is_* tests: same status, same
    final state, for every query, all/some, every callee evaluator, every state *)
@@ -130,3 +130,10 @@ Theorem C03_negation_is_recorded_with_filters : forall rv s c r, clause_top rv s
   exists c', clause_f_top rv s = POk c' r /\ gc_neg c' = pc_neg c /\ gc_cmp c' = pc_cmp c.
 Proof. exact clause_f_negation. Qed.
 Print Assumptions C03_negation_is_recorded_with_filters.
+
+(* the whole-grammar parser (Model/FullParse.v, tied on whole files) records the negation of every clause spelling first *)
+Theorem C03_whole_grammar_records_the_negation : forall rv c o rest, cwf rv c o -> cfollow rv c rest ->
+  exists kids r, xaccess_clause rv (S (S (S (S (S (String.length (crender rv c +++ rest))))))) (crender rv c +++ rest) =
+                 POk (T "Clause" (tbool (neg_flag (cl_neg c)) :: kids)) r.
+Proof. exact whole_grammar_records_the_negation. Qed.
+Print Assumptions C03_whole_grammar_records_the_negation.
